@@ -253,6 +253,30 @@ def all_classes(collection) -> list:  # noqa: ANN001
     return out
 
 
+ID_STALE_CYCLE = "C06-cycle-by-paths-resolved-through-stale-alias-object-by-a-later-call"
+
+
+def chain_passes_detached_alias(collection, path: str) -> bool:  # noqa: ANN001
+    """The alias the tree holds under ``path`` is resolved, and walking its CACHED targets meets an alias object that is
+    no longer the member the collection holds under that object's own path (it was replaced after somebody cached it)."""
+    try:
+        cur = collection.get_member(path)
+    except Exception:  # noqa: BLE001
+        return False
+    for _ in range(60):
+        if not getattr(cur, "is_alias", False) or not cur.resolved:
+            return False
+        cur = cur._target
+        if getattr(cur, "is_alias", False):
+            try:
+                live = collection.get_member(cur.path)
+            except Exception:  # noqa: BLE001
+                return True
+            if live is not cur:
+                return True
+    return False
+
+
 def snapshot(collection) -> dict:  # noqa: ANN001
     """Passive: never triggers a resolution."""
     snap = {}
@@ -529,13 +553,22 @@ def run_case(rec, files: dict, descs: dict | None, order: list[str], implicit: b
                             and any(d_["t"] == "wild" and "rel" not in d_ and d_["module"].split(".")[0] in arrived
                                     for m_, ds_ in flat.items() if m_.split(".")[0] in earlier for d_ in ds_)):
                         fid = "C06-wildcards-of-pulled-in-package-followed-by-next-call"
+                    # a chain that is a cycle by PATHS and only ends through a stale alias object: once some alias has cached a
+                    # member that a wildcard expansion replaced afterwards (the listed early-resolution mechanism), an alias that
+                    # the resolution loop gave up on as cyclic becomes resolvable - by whichever later call tries it next.  Every
+                    # change is then a mere resolution, and the resolved chain passes an alias object the tree no longer holds.
+                    if (not fid and not gone and diff
+                            and all(not k.startswith("placeholder:") and v[1] is not None and (v[0] is None or v[0][0] == "PARTIAL")
+                                    for k, v in diff.items())
+                            and all(chain_passes_detached_alias(loader.modules_collection, k) for k in diff)):
+                        fid = ID_STALE_CYCLE
                     if fid:
                         deferred.append((fid, f"resolve_aliases() call #{i + 1} changed the tree (not a fixpoint): " + str(sorted(diff))[:200]))
                         break   # a listed mechanism: go on with the other monitors of this case
                     rec.fail(case, f"resolve_aliases() call #{i + 1} changed the tree (not a fixpoint)",
                              observed={"changed": diff, "unresolved": [snaps[0][1], snaps[i][1]]},
                              tried=["C06-wildcard-late-expansion", "C06-wildcards-not-expanded-again-after-external-load",
-                                    "C06-wildcards-of-pulled-in-package-followed-by-next-call"], nontrivial=nontrivial, tags=tags)
+                                    "C06-wildcards-of-pulled-in-package-followed-by-next-call", ID_STALE_CYCLE], nontrivial=nontrivial, tags=tags)
                     return
             # (3) all-or-nothing -------------------------------------------------------------
             stage = "all-or-nothing"
